@@ -38,8 +38,9 @@ def canon(x):
 class Check:
     """Accumulates what one run of one property check covered and found."""
 
-    def __init__(self, pid, tier, seed, level="model_checking"):
+    def __init__(self, pid, tier, seed, level="model_checking", evidence_dir="evidence"):
         self.pid, self.tier, self.seed, self.level = pid, tier, seed, level
+        self.evid = VERIF / evidence_dir      # listed properties: evidence/; extended coverage (X..): evidence_extended/
         self.t0 = time.time()
         self.states = 0
         self.transitions = 0
@@ -140,8 +141,8 @@ class Check:
             "wall_s": round(time.time() - self.t0, 2),
             "violations": n_fresh,
         }
-        EVID.mkdir(exist_ok=True)
-        (EVID / f"{self.pid}.json").write_text(json.dumps(ev, indent=1, sort_keys=True) + "\n")
+        self.evid.mkdir(exist_ok=True)
+        (self.evid / f"{self.pid}.json").write_text(json.dumps(ev, indent=1, sort_keys=True) + "\n")
 
 
 def _matches(pattern, sig):
